@@ -199,7 +199,7 @@ func (v *verdict) evalField(f *fieldD, s *source, tree map[string]any, path stri
 		ambiguous := null
 		switch {
 		case dpresent && dleaf == nil:
-			cls += "+dep-null"
+			cls += "+dep-present" // the key is in the document (with a null value)
 			ambiguous = true
 		case dpresent:
 			cls += "+dep-present"
@@ -795,13 +795,12 @@ func (c *comparer) field(f *fieldD, fv reflect.Value, s *source, tree map[string
 			c.elem(f.Elem, ev, el, s, fmt.Sprintf("%s[%s]", p, k))
 		}
 	default:
-		if ctx.FromArray {
-			if arr, ok := asArray(leaf); ok {
-				if len(arr) == 0 {
-					return
-				}
-				leaf = arr[0]
+		// several values for a scalar: go-zero takes the first one under WithFromArray
+		if arr, ok := asArray(leaf); ok {
+			if len(arr) == 0 {
+				return
 			}
+			leaf = arr[0]
 		}
 		want, ok := interpret(f.Kind, leaf)
 		if !ok {
